@@ -427,5 +427,389 @@ Proof.
         -- destruct (i_wfP _ _ _ _ _ _ _ _ _ _ _ _ I1 id p Hp) as [_ ?]. lia.
         -- intros q Hq. assert (q = p) as -> by congruence. exact Hps.
     + intros k q Hin Hk. apply (Hdue k q); [now right|now apply Hsub].
-    + repeat split; auto; congruence.
+    + split; [exact A1|]. split; [exact A2|]. split; [congruence|]. split; congruence.
 Qed.
+
+(* ------------------------------------------------------------------------------------------ *)
+(* handlers *)
+Lemma life_same st st' :
+  Life st -> proposals st' = proposals st -> states st' = states st -> pending st' = pending st ->
+  deal_ops st' = deal_ops st -> last_cron st' = last_cron st -> next_id st' = next_id st ->
+  interval st' = interval st -> Life st'.
+Proof. unfold Life. intros H -> -> -> -> -> -> ->. exact H. Qed.
+
+Lemma add_balance_life st who t v : Life st -> Life (fst (add_balance st who t v)).
+Proof.
+  intros H. unfold add_balance. destruct (v <=? 0); [exact H|].
+  destruct t; [exact H| |]; destruct (bt_add (escrow st) who v); try exact H; cbn [fst];
+    eapply life_same; eauto.
+Qed.
+
+Lemma withdraw_life st caller who t amt : Life st -> Life (fst (withdraw_balance st caller who t amt)).
+Proof.
+  intros H. unfold withdraw_balance. destruct (amt <? 0); [exact H|].
+  destruct (escrow_address who t) as [[rc ap]|]; [|exact H].
+  destruct (negb (zmem caller ap)); [exact H|].
+  destruct (bt_sub_with_min _ _ _ _) as [[e' ex]|]; [|exact H].
+  destruct (balance st <? ex); [exact H|]. cbn [fst]. eapply life_same; eauto.
+Qed.
+
+(* -- publish -- *)
+Definition fresh_ps (st : state) (epoch : Z) (ps : list proposal) : Prop :=
+  NoDup ps /\ forall p, In p ps -> ~ In p (pending st) /\ epoch <= p_start p.
+
+Lemma nodup_snoc {A} (l : list A) x : NoDup l -> ~ In x l -> NoDup (l ++ [x]).
+Proof.
+  induction 1 as [|y l Hy Hl IH]; cbn; intros Hx.
+  - constructor; [intros []|constructor].
+  - constructor.
+    + rewrite in_app_iff. cbn. intros [H|[H|[]]]; [contradiction|subst; apply Hx; now left].
+    + apply IH. intros H. apply Hx. now right.
+Qed.
+
+Lemma pub_filter_one_fresh st prov epoch acc di d :
+  fresh_ps st epoch (pa_valid acc) -> fresh_ps st epoch (pa_valid (pub_filter_one st prov epoch acc di d)).
+Proof.
+  intros H. unfold pub_filter_one.
+  destruct (negb (deal_valid epoch d)) eqn:Ev; [exact H|]. zb.
+  destruct (negb (p_provider (d_prop d) =? prov)); [exact H|].
+  destruct (negb (balance_covered st (p_client (d_prop d)) _)); [exact H|].
+  destruct (negb (balance_covered st prov _)); [exact H|].
+  destruct (pend_has (pending st) (d_prop d) || pend_has (pa_valid acc) (d_prop d)) eqn:Ed; [exact H|].
+  destruct (p_verified (d_prop d)); [exact H|].
+  apply orb_false_iff in Ed as [E1 E2]. cbn [pa_valid]. destruct H as [Hnd Hall].
+  assert (N1 : ~ In (d_prop d) (pending st)) by (intros Hin; apply pend_has_In in Hin; congruence).
+  assert (N2 : ~ In (d_prop d) (pa_valid acc)) by (intros Hin; apply pend_has_In in Hin; congruence).
+  split.
+  - now apply nodup_snoc.
+  - intros p Hp. apply in_app_or in Hp as [Hp|[<-|[]]]; [auto|].
+    split; [exact N1|]. apply deal_valid_okp in Ev. destruct Ev as (_ & _ & _ & ?). assumption.
+Qed.
+
+Lemma pub_filter_fresh st prov epoch ds : forall acc di,
+  fresh_ps st epoch (pa_valid acc) -> fresh_ps st epoch (pa_valid (pub_filter st prov epoch acc di ds)).
+Proof.
+  induction ds as [|d ds IH]; intros acc di H; cbn [pub_filter]; [exact H|].
+  apply IH. now apply pub_filter_one_fresh.
+Qed.
+
+Lemma ops_put_lookup m e0 id0 e ids :
+  ops_put m e0 id0 !! e = Some ids ->
+  forall id, In id ids -> (e = e0 /\ id = id0) \/ (exists ids0, m !! e = Some ids0 /\ In id ids0).
+Proof.
+  unfold ops_put. intros H id Hin. destruct (Z.eq_dec e e0) as [->|Hne].
+  - rewrite lookup_insert in H. injection H as <-. apply ins_sorted_In in Hin as [->|Hin]; [now left|].
+    right. destruct (m !! e0) as [l|]; cbn in Hin; [eauto|contradiction].
+  - rewrite lookup_insert_ne in H by congruence. right. eauto.
+Qed.
+
+Lemma pub_commit_one_life epoch st p st' id :
+  0 <= epoch -> MarketInv epoch st -> Life st ->
+  (forall k, proposals st !! k <> Some p) -> epoch <= p_start p ->
+  pub_commit_one st p = Ok st' id ->
+  Life st' /\ last_cron st' = last_cron st /\
+  (forall q, (forall k, proposals st !! k <> Some q) -> q <> p -> forall k, proposals st' !! k <> Some q).
+Proof.
+  intros He I Hl Hnl Hst. unfold pub_commit_one.
+  destruct (lock_balances st p) as [st1 u|] eqn:Hlk; [|discriminate]. cbn [bind].
+  apply lock_balances_inv in Hlk as (_ & _ & _ & _ & _ & _ & A7 & A8 & _).
+  destruct A7. intros [= <- <-].
+  pose proof (inv_nid_fresh I) as Hf. pose proof (inv_S_None I _ Hf) as Hs.
+  pose proof (i_nid _ _ _ _ _ _ _ _ _ _ _ _ I) as Hn0.
+  split; [|split; [cbn; congruence|]].
+  - unfold Life.
+    cbn [proposals states pending deal_ops last_cron next_id interval set_deal_ops set_proposals set_pending set_next_id].
+    rewrite f_prop, f_states, f_next, f_ops, f_cron, f_ivl, A8.
+    destruct Hl as [Hp Hu Hq Ho Hn Hi].
+    constructor; auto.
+    + intros k q Hk Hnu Hnin. destruct (Z.eq_dec k (next_id st)) as [->|Hne].
+      * rewrite lookup_insert in Hk. injection Hk as <-. exfalso. apply Hnin. apply pend_put_In. now left.
+      * rewrite lookup_insert_ne in Hk by congruence. apply (Hp k q Hk Hnu).
+        intros Hin. apply Hnin. apply pend_put_In. now right.
+    + intros k q ds Hk Hsk Hlu. destruct (Z.eq_dec k (next_id st)) as [->|Hne]; [congruence|].
+      rewrite lookup_insert_ne in Hk by congruence. eauto.
+    + intros k1 k2 q H1 H2.
+      destruct (Z.eq_dec k1 (next_id st)) as [->|N1]; destruct (Z.eq_dec k2 (next_id st)) as [->|N2]; auto.
+      * rewrite lookup_insert in H1. injection H1 as <-. rewrite lookup_insert_ne in H2 by congruence.
+        exfalso. exact (Hnl k2 H2).
+      * rewrite lookup_insert in H2. injection H2 as <-. rewrite lookup_insert_ne in H1 by congruence.
+        exfalso. exact (Hnl k1 H1).
+      * rewrite lookup_insert_ne in H1, H2 by congruence. eauto.
+    + intros e ids k q He' Hin Hk.
+      destruct (ops_put_lookup _ _ _ _ _ He' k Hin) as [[-> ->]|(ids0 & H0 & Hin0)].
+      * rewrite lookup_insert in Hk. injection Hk as <-. apply next_update_epoch_ge; lia.
+      * pose proof (Hn e ids0 k H0 Hin0). rewrite lookup_insert_ne in Hk by lia. eauto.
+    + intros e ids k He' Hin.
+      destruct (ops_put_lookup _ _ _ _ _ He' k Hin) as [[-> ->]|(ids0 & H0 & Hin0)]; [lia|].
+      pose proof (Hn e ids0 k H0 Hin0). lia.
+  - intros q Hq Hne k Hk. cbn [proposals set_deal_ops set_proposals set_pending set_next_id] in Hk.
+    rewrite f_prop, f_next in Hk. destruct (Z.eq_dec k (next_id st)) as [->|N].
+    + rewrite lookup_insert in Hk. congruence.
+    + rewrite lookup_insert_ne in Hk by congruence. exact (Hq k Hk).
+Qed.
+
+Lemma pub_commit_life epoch ps : forall st ids st' ids',
+  0 <= epoch -> Forall (okp epoch) ps -> MarketInv epoch st -> Life st ->
+  NoDup ps -> (forall p, In p ps -> (forall k, proposals st !! k <> Some p) /\ epoch <= p_start p) ->
+  pub_commit st ps ids = Ok st' ids' -> Life st' /\ last_cron st' = last_cron st.
+Proof.
+  induction ps as [|p ps IH]; intros st ids st' ids' He Hok I Hl Hnd Hall; cbn [pub_commit].
+  - intros [= <- _]. auto.
+  - inversion Hok as [|? ? Hp0 Hps]; subst. inversion Hnd as [|? ? Hnin Hnd']; subst.
+    destruct (pub_commit_one st p) as [st1 id|] eqn:Hc1; [|discriminate]. cbn [bind].
+    destruct (pub_commit_one_inv _ _ _ _ _ He Hp0 I Hc1) as [I1 _].
+    destruct (Hall p (or_introl eq_refl)) as [Hnl Hst].
+    destruct (pub_commit_one_life _ _ _ _ _ He I Hl Hnl Hst Hc1) as (L1 & C1 & K1).
+    intros Hc. destruct (IH st1 (ids ++ [id]) st' ids' He Hps I1 L1 Hnd') as [L2 C2]; auto.
+    + intros q Hq. destruct (Hall q (or_intror Hq)) as [Hq1 Hq2]. split; [|exact Hq2].
+      apply K1; [exact Hq1|]. intros ->. contradiction.
+    + split; [exact L2|congruence].
+Qed.
+
+Lemma publish_life now st caller epoch t deals :
+  MarketInv now st -> Life st -> now <= epoch -> 0 <= epoch -> last_cron st < epoch ->
+  Life (fst (publish st caller epoch t deals)) /\
+  last_cron (fst (publish st caller epoch t deals)) = last_cron st.
+Proof.
+  intros I Hl Hn He Hlc. pose proof (invc_now_mono _ _ _ _ _ _ _ _ _ _ _ _ _ I Hn) as I'.
+  unfold publish. destruct deals as [|d0 rest]; [auto|].
+  destruct t as [| |o w cs]; [auto|auto|].
+  destruct (negb (zmem caller (cs ++ [w; o]))); [auto|].
+  set (acc := pub_filter st _ epoch _ 0 _).
+  assert (Hok : Forall (okp epoch) (pa_valid acc)) by (apply pub_filter_ok; constructor).
+  assert (Hfr : fresh_ps st epoch (pa_valid acc)).
+  { apply pub_filter_fresh. split; [constructor|intros p []]. }
+  destruct (pa_valid acc) as [|p0 ps] eqn:Hv; [auto|]. rewrite <- Hv in *.
+  destruct (pub_commit st (pa_valid acc) []) as [st1 ids|] eqn:Hc; [|auto].
+  cbn [fst]. destruct Hfr as [Hnd Hall].
+  eapply pub_commit_life; [exact He|exact Hok|exact I'|exact Hl|exact Hnd| |exact Hc].
+  intros p Hp. destruct (Hall p Hp) as [H1 H2]. split; [|exact H2].
+  intros k Hk. apply H1.
+  eapply (pending_complete epoch _ _ _ _ _ _ _ _ _ _ _ _ _ _ _ epoch k p I' Hl); auto; lia.
+Qed.
+
+(* -- activation -- *)
+Lemma put_fresh_view l : forall (S : gmap Z dstate),
+  Forall (fun x => ds_lu (snd x) = UNDEF /\
+                   (S !! fst x = None \/ exists d0, S !! fst x = Some d0 /\ ds_lu d0 = UNDEF)) l ->
+  forall k, (never_updated (put_deal_states S l !! k) -> never_updated (S !! k)) /\
+            (forall ds, put_deal_states S l !! k = Some ds -> ds_lu ds <> UNDEF -> S !! k = Some ds).
+Proof.
+  induction l as [|[i d] l IH]; intros S H k; cbn [put_deal_states]; [split; auto|].
+  inversion H as [|x l' Hx Hl]; subst. cbn [fst snd] in Hx. destruct Hx as [Hd HS].
+  assert (Hl' : Forall (fun x => ds_lu (snd x) = UNDEF /\
+             (<[i:=d]> S !! fst x = None \/ exists d0, <[i:=d]> S !! fst x = Some d0 /\ ds_lu d0 = UNDEF)) l).
+  { rewrite Forall_forall in *. intros x Hin. destruct (Hl x Hin) as [A1 A2]. split; [exact A1|].
+    destruct (Z.eq_dec (fst x) i) as [->|Hne].
+    - right. exists d. rewrite lookup_insert. auto.
+    - rewrite lookup_insert_ne by congruence. exact A2. }
+  destruct (IH (<[i:=d]> S) Hl' k) as [I1 I2]. split.
+  - intros Hnu. specialize (I1 Hnu). destruct (Z.eq_dec k i) as [->|Hne].
+    + destruct HS as [->|(d0 & -> & Hd0)]; cbn; auto.
+    + now rewrite lookup_insert_ne in I1 by congruence.
+  - intros ds Hk Hlu. specialize (I2 ds Hk Hlu). destruct (Z.eq_dec k i) as [->|Hne].
+    + rewrite lookup_insert in I2. injection I2 as <-. contradiction.
+    + now rewrite lookup_insert_ne in I2 by congruence.
+Qed.
+
+Lemma fresh_life st epoch l st' :
+  Life st -> Forall (fresh_ok st epoch) l ->
+  proposals st' = proposals st -> states st' = put_deal_states (states st) l -> pending st' = pending st ->
+  deal_ops st' = deal_ops st -> last_cron st' = last_cron st -> next_id st' = next_id st ->
+  interval st' = interval st -> Life st'.
+Proof.
+  unfold Life. intros [Hp Hu Hq Ho Hn Hi] Hf -> -> -> -> -> -> ->.
+  assert (Hv := put_fresh_view l (states st)).
+  assert (Hl : Forall (fun x => ds_lu (snd x) = UNDEF /\
+             (states st !! fst x = None \/ exists d0, states st !! fst x = Some d0 /\ ds_lu d0 = UNDEF)) l).
+  { rewrite Forall_forall in *. intros x Hx. destruct (Hf x Hx) as (_ & A2 & A3 & _). auto. }
+  specialize (Hv Hl).
+  constructor; auto.
+  - intros k q Hk Hnu Hnin. apply (Hp k q Hk); [|exact Hnin]. exact (proj1 (Hv k) Hnu).
+  - intros k q ds Hk Hs Hlu. apply (Hu k q ds Hk); [|exact Hlu]. exact (proj2 (Hv k) ds Hs Hlu).
+Qed.
+
+Lemma activate_life st caller m epoch sectors :
+  Life st -> Life (fst (batch_activate st caller m epoch sectors)) /\
+  last_cron (fst (batch_activate st caller m epoch sectors)) = last_cron st.
+Proof.
+  intros H. unfold batch_activate. destruct (negb m); [auto|]. cbn [fst].
+  set (acc := act_sectors st caller epoch _ 0 sectors).
+  assert (Hf : Forall (fresh_ok st epoch) (aa_states acc)) by (apply act_sectors_fresh; constructor).
+  split; [|reflexivity]. eapply (fresh_life st epoch (aa_states acc)); eauto.
+Qed.
+
+Lemma scc_life st caller m epoch sectors :
+  Life st -> Life (fst (sector_content_changed st caller m epoch sectors)) /\
+  last_cron (fst (sector_content_changed st caller m epoch sectors)) = last_cron st.
+Proof.
+  intros H. unfold sector_content_changed. destruct (negb m); [auto|].
+  pose proof (scc_sectors_fresh st caller epoch sectors (mkCacc [] [] [] [], [], [])) as Hf.
+  destruct (fold_left (scc_sector st caller epoch) sectors (mkCacc [] [] [] [], [], [])) as [[acc secs] out].
+  cbn [fst] in *. split; [|reflexivity].
+  eapply (fresh_life st epoch (ca_states acc)); eauto. apply Hf. constructor.
+Qed.
+
+(* -- settle / terminate -- *)
+Lemma settle_life now st epoch ids :
+  MarketInv now st -> Life st -> now <= epoch -> 0 <= epoch -> NoDup ids ->
+  Life (fst (settle st epoch ids)) /\ last_cron (fst (settle st epoch ids)) = last_cron st.
+Proof.
+  intros I Hl Hn He Hnd. pose proof (invc_now_mono _ _ _ _ _ _ _ _ _ _ _ _ _ I Hn) as I'.
+  unfold settle.
+  destruct (settle_loop epoch st (mkSacc [] 0 [] 0 [] []) 0 ids) as [st1 a|] eqn:Hlp; [|auto].
+  destruct (settle_loop_life epoch (last_cron st) ids st (mkSacc [] 0 [] 0 [] []) 0 st1 a He Hnd I'
+              ltac:(intros k _ H; exact H) Hl Hlp) as [L1 C1].
+  assert (Hfin : forall st3, proposals st3 = proposals st1 ->
+            states st3 = put_deal_states (states st1) (sa_new a) -> pending st3 = pending st1 ->
+            deal_ops st3 = deal_ops st1 -> last_cron st3 = last_cron st1 -> next_id st3 = next_id st1 ->
+            interval st3 = interval st1 -> Life st3 /\ last_cron st3 = last_cron st).
+  { intros st3 E1 E2 E3 E4 E5 E6 E7. unfold Life. rewrite E1, E2, E3, E4, E5, E6, E7, C1.
+    split; [exact L1|reflexivity]. }
+  destruct (sa_slashed a =? 0); [cbn [fst]; apply Hfin; reflexivity|].
+  destruct ((sa_slashed a <? 0) || _); [auto|]. cbn [fst]. apply Hfin; reflexivity.
+Qed.
+
+Lemma terminate_life now st caller m epoch sectors :
+  MarketInv now st -> Life st -> now <= epoch -> 0 <= epoch ->
+  Life (fst (terminate st caller m epoch sectors)) /\
+  last_cron (fst (terminate st caller m epoch sectors)) = last_cron st.
+Proof.
+  intros I Hl Hn He. pose proof (invc_now_mono _ _ _ _ _ _ _ _ _ _ _ _ _ I Hn) as I'.
+  unfold terminate. destruct (negb m); [auto|].
+  destruct (pop_sector_deals (psectors st) caller sectors) as [ps' ids].
+  destruct (term_loop st caller epoch (set_psectors st ps') 0 ids) as [st1 total|] eqn:Hlp; [|auto].
+  assert (I0 : term_inv epoch st (set_psectors st ps') 0).
+  { split; [exact I'|]. intros id. right. split; reflexivity. }
+  destruct (term_loop_life epoch (last_cron st) st caller ids (set_psectors st ps') 0 st1 total He I0 Hl Hlp)
+    as [L1 C1].
+  assert (Hfin : forall st3, proposals st3 = proposals st1 -> states st3 = states st1 ->
+            pending st3 = pending st1 -> deal_ops st3 = deal_ops st1 -> last_cron st3 = last_cron st1 ->
+            next_id st3 = next_id st1 -> interval st3 = interval st1 ->
+            Life st3 /\ last_cron st3 = last_cron st).
+  { intros st3 E1 E2 E3 E4 E5 E6 E7. unfold Life. rewrite E1, E2, E3, E4, E5, E6, E7. cbn in C1. rewrite C1.
+    split; [exact L1|reflexivity]. }
+  destruct (0 <? total); [|cbn [fst]; apply Hfin; reflexivity].
+  destruct (balance st1 <? total); [auto|]. cbn [fst]. apply Hfin; reflexivity.
+Qed.
+
+(* -- cron -- *)
+Lemma due_In st epoch e ids :
+  In (e, ids) (due st epoch) -> deal_ops st !! e = Some ids /\ last_cron st < e <= epoch.
+Proof.
+  unfold due. rewrite sort_key_In, filter_In. intros [H1 H2].
+  apply elem_of_list_In, elem_of_map_to_list in H1. zb. split; [exact H1|lia].
+Qed.
+
+Lemma fold_delete_lookup (d : list (Z * list Z)) : forall (m : gmap Z (list Z)) e ids,
+  fold_left (fun m '(e, _) => delete e m) d m !! e = Some ids -> m !! e = Some ids.
+Proof.
+  induction d as [|[e0 l0] d IH]; intros m e ids H; cbn [fold_left] in H; [exact H|].
+  apply IH in H. apply lookup_delete_Some in H as [_ H]. exact H.
+Qed.
+
+Lemma fold_ops_put_lookup (new : list (Z * Z)) : forall (m : gmap Z (list Z)) e ids,
+  fold_left (fun m '(e, id) => ops_put m e id) new m !! e = Some ids ->
+  forall id, In id ids -> (exists ids0, m !! e = Some ids0 /\ In id ids0) \/ In (e, id) new.
+Proof.
+  induction new as [|[e0 id0] new IH]; intros m e ids H id Hin; cbn [fold_left] in H.
+  - left. eauto.
+  - destruct (IH _ _ _ H id Hin) as [(ids0 & H0 & Hin0)|Hn]; [|right; now right].
+    destruct (ops_put_lookup _ _ _ _ _ H0 id Hin0) as [[-> ->]|Hold]; [right; now left|now left].
+Qed.
+
+Lemma cron_life now st caller epoch :
+  MarketInv now st -> Life st -> now <= epoch -> 0 <= epoch -> last_cron st < epoch ->
+  Life (fst (cron_tick st caller epoch)).
+Proof.
+  intros I Hl Hn He Hlc. pose proof (invc_now_mono _ _ _ _ _ _ _ _ _ _ _ _ _ I Hn) as I'.
+  unfold cron_tick. destruct (negb (caller =? CRON_ACTOR_ID)); [exact Hl|].
+  destruct (cron_loop epoch st (mkCracc 0 [] []) (flat_map snd (due st epoch))) as [st1 a|] eqn:Hlp; [|exact Hl].
+  assert (L0 : LifeL epoch st (states st)).
+  { destruct Hl as [Hp Hu Hq Ho Hnn Hi]. constructor; auto.
+    intros id p H1 H2 H3. pose proof (Hp id p H1 H2 H3). lia. }
+  assert (Hdue : forall id p, In id (flat_map snd (due st epoch)) -> proposals st !! id = Some p ->
+                              p_start p <= epoch).
+  { intros id p Hin Hp. apply in_flat_map in Hin as ([e ids] & Hd & Hid). cbn in Hid.
+    apply due_In in Hd as [Hd1 Hd2].
+    pose proof (lf_ops _ _ _ _ _ _ _ Hl e ids id p Hd1 Hid Hp). lia. }
+  destruct (cron_loop_life epoch _ st (mkCracc 0 [] []) st1 a He I' L0 ltac:(intros x []) Hdue Hlp)
+    as (L1 & Sd & O1 & C1 & N1).
+  assert (Hfin : forall st3, proposals st3 = proposals st1 -> states st3 = states st1 ->
+            pending st3 = pending st1 -> last_cron st3 = epoch -> next_id st3 = next_id st1 ->
+            interval st3 = interval st1 ->
+            deal_ops st3 = fold_left (fun m '(e, id) => ops_put m e id) (cr_new a)
+                             (fold_left (fun m '(e, _) => delete e m) (due st epoch) (deal_ops st1)) ->
+            Life st3).
+  { intros st3 E1 E2 E3 E4 E5 E6 E7. unfold Life. rewrite E1, E2, E3, E4, E5, E6, E7.
+    destruct L1 as [Hp Hu Hq Ho Hnn Hi]. constructor; auto.
+    - intros e ids id p H Hin Hpp.
+      destruct (fold_ops_put_lookup _ _ _ _ H id Hin) as [(ids0 & H0 & Hin0)|Hnew].
+      + apply fold_delete_lookup in H0. eauto.
+      + destruct (Sd _ Hnew) as (B1 & B2 & B3). cbn [fst snd] in *. specialize (B3 p Hpp). lia.
+    - intros e ids id H Hin.
+      destruct (fold_ops_put_lookup _ _ _ _ H id Hin) as [(ids0 & H0 & Hin0)|Hnew].
+      + apply fold_delete_lookup in H0. eauto.
+      + destruct (Sd _ Hnew) as (B1 & B2 & B3). exact B2. }
+  destruct (cr_slashed a =? 0); [cbn [fst]; apply Hfin; reflexivity|].
+  destruct ((cr_slashed a <? 0) || _); [exact Hl|]. cbn [fst]. apply Hfin; reflexivity.
+Qed.
+
+(* ------------------------------------------------------------------------------------------ *)
+(* every operation keeps the lifecycle invariant *)
+Definition life_op (st : state) (o : op) : Prop := last_cron st < op_epoch o.
+
+Theorem life_step now st o :
+  MarketInv now st -> Life st -> now <= op_epoch o -> wf_op o -> life_op st o ->
+  Life (fst (step st o)).
+Proof.
+  intros I Hl Hn [He Hw] Hlc. unfold life_op in Hlc.
+  destruct o; cbn [step op_epoch] in *.
+  - now apply add_balance_life.
+  - now apply withdraw_life.
+  - now apply (publish_life now).
+  - now apply activate_life.
+  - now apply scc_life.
+  - subst. now apply (terminate_life now).
+  - now apply (settle_life now).
+  - now apply (cron_life now).
+  - unfold get_balance. destruct (negb resolves); exact Hl.
+Qed.
+
+Lemma life_init ivl : 0 < ivl -> Life (init ivl).
+Proof.
+  intros H. unfold Life, init. cbn. constructor; auto.
+  - intros id p Hp. rewrite lookup_empty in Hp. discriminate.
+  - intros id p ds Hp. rewrite lookup_empty in Hp. discriminate.
+  - intros k1 k2 p Hp. rewrite lookup_empty in Hp. discriminate.
+  - intros e ids id p Hp. rewrite lookup_empty in Hp. discriminate.
+  - intros e ids id Hp. rewrite lookup_empty in Hp. discriminate.
+Qed.
+
+(* histories in which, additionally, every message comes after the last cron tick's epoch (the cron
+   runs last in its epoch, once per epoch) *)
+Fixpoint hist_ok2 (now : Z) (st : state) (ops : list op) : Prop :=
+  match ops with
+  | [] => True
+  | o :: r => now <= op_epoch o /\ wf_op o /\ life_op st o /\ hist_ok2 (op_epoch o) (fst (step st o)) r
+  end.
+
+Lemma hist_ok2_ok ops : forall now st, hist_ok2 now st ops -> hist_ok now ops.
+Proof.
+  induction ops as [|o ops IH]; intros now st H; cbn in *; [exact I|].
+  destruct H as (H1 & H2 & H3 & H4). eauto.
+Qed.
+
+Theorem life_run ops : forall now st,
+  MarketInv now st -> Life st -> hist_ok2 now st ops ->
+  MarketInv (last_epoch now ops) (run st ops) /\ Life (run st ops).
+Proof.
+  induction ops as [|o ops IH]; intros now st I Hl H; cbn [hist_ok2 last_epoch fold_left run] in *; [auto|].
+  destruct H as (H1 & H2 & H3 & H4).
+  apply IH; [now apply step_inv with (now := now)|now apply (life_step now)|exact H4].
+Qed.
+
+Theorem life_reachable ivl ops :
+  0 < ivl -> hist_ok2 0 (init ivl) ops ->
+  MarketInv (last_epoch 0 ops) (run (init ivl) ops) /\ Life (run (init ivl) ops).
+Proof. intros Hi H. apply life_run; [apply invc_init|now apply life_init|exact H]. Qed.
